@@ -56,7 +56,11 @@ def render_field(f, ind, sp, path):
             return "%s%s%s%s%s%s" % (ind, attr, rep, f["ty"], doc, sep)
         return "%s%s%s%s %s%s%s" % (ind, attr, rep, f["ty"], f["name"], doc, sep)
     if k == "inl":
-        inner = "\n".join(render_field(g, ind + "    ", sp, path + "." + g["name"]) for g in f["fs"])
+        # the grammar admits no attribute in front of a field of an inline object: the prefixed spelling stops here
+        spin = dict(sp)
+        if isinstance(sp.get("*"), dict):
+            spin["*"] = {a: b for a, b in sp["*"].items() if a != "prefixattr"}
+        inner = "\n".join(render_field(g, ind + "    ", spin, path + "." + g["name"]) for g in f["fs"])
         return "%s%s%s {\n%s\n%s}%s" % (ind, rep, f["name"], inner, ind, ",")
     if k == "match":
         lines = []
